@@ -174,7 +174,7 @@ def _corpus_cov(cs, ms, pid, extra_rule=""):
                         "generated": ms["generated"], "depth": ms["depth"], "action_coverage": ms["action_coverage"],
                         "clauses": MODEL_CLAUSES.get(pid, []),
                         "stall_witness_reachable": ms["stall_witness_reachable"],
-                        "witnesses": ms.get("witnesses", {}), "liveness": ms.get("liveness", {}), "simulation": ms.get("simulation"), "manual_stepping": ms.get("manual_stepping"),
+                        "witnesses": ms.get("witnesses", {}), "liveness": ms.get("liveness", {}), "simulation": ms.get("simulation"), "manual_stepping": ms.get("manual_stepping"), "protocol_variants": ms.get("protocol_variants"),
                         "growth_invariants": ["Inv_G_WoundDownOneStepLater", "Inv_G_ClockNotAhead", "Inv_G_ClockInSync", "Inv_G_SinceSproutRawNonNeg",
                                               "Inv_G_SinceSproutBounded"]}
     return cov
